@@ -159,9 +159,8 @@ PROPS = {
         assumptions=["H-ind: multi-view history induction NOT mechanised"],
     ),
     "C03": dict(
-        units=["replica"],
+        units=["replica", "conv"],
         kani=["phase"],
-        kani_quick=True,
         level="proof",
         level_text="Deductive proof (Verus) over the real text of on_proposal, on_new_view, on_commit, on_timeout, start_new_view, start_timeout, "
                    "process_commit_qc, process_timeout_qc, get_justification, backup_state, save_block, StateMachine::start. Vote-once: "
@@ -171,7 +170,9 @@ PROPS = {
                    "moves forward (start_new_view requires view > current; on_* ensure final view >= old). Persist-before-send: a ghost field "
                    "records the snapshot (view, phase, high vote, high certificates) at every successful backup_state; an assertion before "
                    "EVERY outbound send requires it to equal the current snapshot, and backup_state is proved to hand exactly that snapshot "
-                   "to set_state. Restart: StateMachine::start restores exactly the stored snapshot (incl. phase) when the epoch matches.",
+                   "to set_state. Restart: StateMachine::start restores exactly the stored snapshot (incl. phase) when the epoch matches; the stored state's "
+                   "conversion to and from its protobuf message (ReplicaState, ChonkyV2State, Phase; unit conv) is lossless, so what was persisted "
+                   "is what is restored. Thorough tier: Kani round-trip harnesses for Phase / View / ReplicaCommit on the real crate.",
         level_note="Not decided: durability/atomicity of EngineInterface::set_state itself (A5) and a crash INSIDE it; the wire encoding of the "
                    "stored state (C09). One task per replica (A4). The proposal-cache statements are abstracted (not voting state); the vote caches are verified (invariants commit_inv/timeout_inv).",
         technique="contract-based deductive verification (Verus on extracted real handlers; ghost persist-before-send monitor at every send site)",
